@@ -233,8 +233,8 @@ PROPS = {
         "assumptions": COMMON_ASSUME + ["values are canonical: maps are taken in key order, one entry per key (what BTreeMap/HashMap denote)"],
     },
     "C16": {
-        "lean_modules": ["InTotoModel.Props.C16", "InTotoModel.Props.C16Keys"],
-        "claim": "Lean theorems for all values: decode(encode x) = x for links, steps, inspections, layouts, signatures and signed blocks (Model/Codec.lean: the serde derives of Link/Step/Inspection/Layout with Layout::try_into/Signature/Metablock with the untagged MetadataWrapper, field types VirtualTargetPath, TargetDescription, KeyId, u32) and for the hand-written codecs (artifact rules in every form, commands, byproducts with the flattened extra map); the readers are faithful: the members a reader consumed are verbatim the encoding of the fields it returns (rule keyword and prefixes, threshold, digests in lower-case hex, key ids, command arguments, environment entries, type tags of steps/inspections), a written link is never read as a layout, a parsed key table only holds entries filed under the key's own id. Correspondence: the model's decode+encode is compared with serde_json::from_value + to_value on valid and mutated documents of all seven kinds (doc_dec), rule and byproducts readers on arbitrary token arrays/objects; every metadata type obtainable from the builders (including their defaults) is serialised in four ways (to_string, pretty, canonical, JsonPretty), parsed and compared (value and byte-identical re-serialisation); an accepted document must survive its own wire form.",
+        "lean_modules": ["InTotoModel.Props.C16", "InTotoModel.Props.C16Keys", "InTotoModel.Props.C16Text"],
+        "claim": "Lean theorems for all values: decode(encode x) = x for links, steps, inspections, layouts, signatures and signed blocks (Model/Codec.lean: the serde derives of Link/Step/Inspection/Layout with Layout::try_into/Signature/Metablock with the untagged MetadataWrapper, field types VirtualTargetPath, TargetDescription, KeyId, u32) and for the hand-written codecs (artifact rules in every form, commands, byproducts with the flattened extra map); the readers are faithful: the members a reader consumed are verbatim the encoding of the fields it returns (rule keyword and prefixes, threshold, digests in lower-case hex, key ids, command arguments, environment entries, type tags of steps/inspections), a written link is never read as a layout, a parsed key table only holds entries filed under the key's own id. Correspondence: the model's decode+encode is compared with serde_json::from_value + to_value on valid and mutated documents of all seven kinds (doc_dec), rule and byproducts readers on arbitrary token arrays/objects; every metadata type obtainable from the builders (including their defaults) is serialised in four ways (to_string, pretty, canonical, JsonPretty), parsed and compared (value and byte-identical re-serialisation); an accepted document must survive its own wire form. Text level (Props/C16Text.lean): serde_json's writers are modelled too (compact = Json.write, pretty printer = Model/JsonWrite.lean) and proved to emit a spelling of the value, so document -> value -> TEXT -> value -> document is the identity for links, layouts and signed files, written compactly, pretty-printed (what in_toto_run and JsonPretty::to_writer write) or formatted in any other way (every text that spells the encoded value, e.g. the reference implementations' separators and indentation); tie: doc_text compares the texts of to_string_pretty(&doc), to_string(&doc) (member order of every derive) and JsonPretty::to_writer with the model's, writetext the two writers on arbitrary values.",
         "level_note": "Trusted: Lean kernel; serde-derive semantics as encoded in Model/Wire.lean and Model/Codec.lean (validated by the doc_dec differential incl. mutations); no parameter is left: the public-key (de)serialiser is modelled (Model/KeyJson.lean: hex / PEM + DER material, scheme compatibility, ids recomputed with the model's SHA-256) like chrono's RFC 3339 reader/writer (Model/Time.lean); both are compared with the library on their own (key_dec, rfc3339 / fmttime) and inside whole documents (doc_dec receives nothing but the document). Two builder-obtainable boundary classes fail the full statement and are listed in known_findings.json.",
         "technique": 'Lean 4 theorems about an executable model + model/implementation correspondence check (differential run with property oracle)',
         "rule": "cases = generated values of every metadata type (all rule forms, optional prefixes, empty vs absent environment, extra byproducts, non-ASCII paths, 0-3 keys of all types, thresholds across u32, builder defaults) x four serialisations; ops = doc_dec (link/step/insp/sig/layout/meta/block) on valid documents and on 1-2 random mutations (member deleted/renamed/added, value of another shape, damaged hex / key id / algorithm name, other expiry spellings incl. offsets and fractions, key-table entries refiled), rule_dec / bp_dec on valid, mutated and random inputs; distinct = distinct op; non-trivial = objects / arrays with at least two tokens",
